@@ -36,6 +36,9 @@ ASSUMPTIONS = [
 
 TARGETS = [["r", "t1"], ["r", "t2"], ["q", "t3"]]
 SENDERS = [None, ["x", "s1"], ["x", "s2"], ["ab", "c"], ["a", "bc"]]
+# the same ids behind other addresses (random and dedicated families only)
+SENDERS_EXT = SENDERS + [["y", "s1"], ["y", "s2"], ["x", "t1"]]
+TARGETS_EXT = TARGETS + [["q", "t1"], ["r", "t3"]]
 KINDS = ["pid", "test", "badutf8", "nonproto"]
 TYPE_IDS = {"actor.PID": 0, "remote.TestMessage": 1, "verif.Unknown": 2, "": 3}
 OUTCOMES = {"ok": "Ok", "error": "Err", "panic": "Panic"}
@@ -62,7 +65,7 @@ def ctype(name):
 def cvalue(kind, n):
     if kind == "pid":
         return "(XMsg %s %s true)" % (C.cnat(0), C.cz(n))
-    if kind == "test":
+    if kind in ("test", "big"):
         return "(XMsg %s %s true)" % (C.cnat(1), C.cz(n))
     if kind == "badutf8":
         return "(XMsg %s %s false)" % (C.cnat(0), C.cz(n))
@@ -123,11 +126,23 @@ class Batches(Part):
             for ss in itertools.product([None, ["x", "s1"], ["ab", "c"], ["a", "bc"]], repeat=4):
                 for kp in itertools.product(["pid", "test", "badutf8"], repeat=4):
                     add([(TARGETS[i % 2], ss[i], kp[i]) for i in range(4)], "exhaustive_len4_patterns")
+        # equal ids behind different addresses, for senders and for targets
+        same_id = list(itertools.product([["r", "t1"], ["q", "t1"]], [None, ["x", "s1"], ["y", "s1"]], ["pid", "test"]))
+        for a, b in itertools.product(same_id, repeat=2):
+            add([a, b], "same_id_other_address")
+        for _ in range(60 if tier == "quick" else 600):
+            add([rng.choice(same_id) for _ in range(rng.randint(3, 6))], "same_id_other_address")
+        # a writer configured for a small reader buffer, payloads of 900 bytes
+        for _ in range(40 if tier == "quick" else 400):
+            n = rng.randint(3, 12)
+            batch = [(rng.choice(TARGETS_EXT), rng.choice(SENDERS_EXT), rng.choice(["big", "big", "pid", "test"])) for _ in range(n)]
+            add(batch, "small_reader_buffer")
+            cases[-1]["input"]["buff_size"] = rng.choice([2048, 4096, 8192])
         nrand = 400 if tier == "quick" else 6000
         for _ in range(nrand):
             n = rng.choice([1, 2, 3, 5, 8, 13, 21, 40, 64])
             wk = rng.choice([[6, 4, 1, 1], [5, 5, 0, 0], [3, 3, 3, 3], [1, 1, 6, 6]])
-            batch = [(rng.choice(TARGETS), rng.choice(SENDERS), rng.choices(KINDS, weights=wk)[0]) for _ in range(n)]
+            batch = [(rng.choice(TARGETS_EXT), rng.choice(SENDERS_EXT), rng.choices(KINDS, weights=wk)[0]) for _ in range(n)]
             add(batch, "random", registered=rng.random() >= 0.2)
         return cases
 
